@@ -13,6 +13,23 @@ CLAIMS = {
          "TypeSum is an upper bound / commutative / idempotent, TypeIntersection is contained in both operands, NonNullable removes exactly NULL, and for every "
          "value within the C09 bounds the value matches Value.Type(). Two known findings (object/tuple deep merge, unnamed object fields) are excluded by narrow predicates and re-exhibited on every run.",
          "Bounds: nesting depth <= 1 per operand (values: depth 2), <= 1-2 fields/elements, field names from {a,b,c}.", "§5 C10"),
+ "C01": ("For each query of a 14-shape single-source catalogue (WHERE, projections, DISTINCT, ORDER BY, LIMIT, subquery in FROM, WITH, COALESCE) and every table within the bounds, the real pipeline "
+         "(SQL parser, logical plan, typechecker, optimizer, Materialize, execution nodes, top-level ORDER BY/LIMIT wiring) executed symbolically returns exactly the multiset (and order) a hand-written reference of SQL semantics defines.",
+         "Bounds: t(a,b) 0..2 (quick) / 0..3 (thorough) rows, cells Int over all 2^64 values or NULL. Partial: catalogue queries only, Int|NULL columns only.", "§5 C01"),
+ "C04": ("Differential: for each of 14 rewrite-triggering query shapes and every pair of tables within the bounds, the plan after the real optimizer.Optimize fixpoint and the unoptimized plan, both materialised and run "
+         "symbolically on the same tables, return the same multiset of rows and the same error status; with a datasource that rejects push-down and one that accepts it.",
+         "Bounds: t(a,b), u(a,b) 0..1 (quick) / 0..2 (thorough) rows, cells Int over all 2^64 values or NULL; catalogue queries only; csv/parquet column pruning inside the real file sources is outside.", "§5 C04"),
+ "C07": ("No Go runtime panic on any path, for: every function descriptor on arbitrary symbolic arguments of its declared types (all int64 values incl. 0, negatives, MinInt64), COALESCE with the real ObjectLayoutFixer, "
+         "every execution expression kind, VariablesUsed/SplitByAnd over every expression kind, max_diff_watermark and tumble over sampled durations. Partial claim: arbitrary query strings / CLI options / files are outside.",
+         "Bounds: strings <= 2 bytes, lists/tuples <= 1-2 elements, types depth <= 1-2; like, ~, ~*, parse_time excluded (regexp/time parsing).", "§5 C07"),
+ "C12": ("reverse = runes reversed for every string within the bounds (incl. multibyte and invalid UTF-8), substr/position/len/replace/upper/lower equal small references on ASCII input. Partial: LIKE / ~ / ~* are outside.",
+         "Bounds: strings <= 3 (quick) / 4 (thorough) bytes.", "§5 C12"),
+ "C20": ("For N records with arbitrary symbolic times, symbolic max_diff and each catalogue resolution the real generator emits a watermark exactly on a new rounded maximum with value rounded - max_diff, "
+         "and passes exactly the records after the current watermark with EventTime := time field.",
+         "Bounds: N = 1 (quick) / 2 (thorough) records, times in [1970, 2106), resolutions 1ns/1ms/1s/1min.", "§5 C20"),
+ "C21": ("tumble: containment, window length, unchanged fields/watermarks for five window lengths over fully symbolic times (alignment decided for 250ms and 1s); range: each integer of [start,end) once ascending for symbolic start; "
+         "poll: every round retracts the previous snapshot, emits the current one, then one watermark, under an arbitrary non-decreasing clock.",
+         "Bounds: see evidence; alignment for 1ms/1min/1h windows is outside (solver unknown).", "§5 C21"),
  "C02": ("For every pair of input tables within the bounds (keys over all 2^64 Int values or NULL) and every receive order of the two inputs (each select with both inputs ready is a forked choice), "
          "the consolidated output of the real StreamJoin / OuterJoin (left, right, full) / LookupJoin node equals the relational join (equality never matches NULL, unmatched outer rows padded once). "
          "Bounded model checking of the real node code including its goroutines, channels and btrees.",
